@@ -1128,12 +1128,14 @@ class PDFCIDFont(PDFFont):
                 raise PDFFontError("BaseFont is missing")
             self.basefont = "unknown"
         self.cidsysteminfo = dict_value(spec.get("CIDSystemInfo", {}))
-        cid_registry = resolve1(self.cidsysteminfo.get("Registry", b"unknown")).decode(
-            "latin1",
-        )
-        cid_ordering = resolve1(self.cidsysteminfo.get("Ordering", b"unknown")).decode(
-            "latin1",
-        )
+        registry = resolve1(self.cidsysteminfo.get("Registry", b"unknown"))
+        ordering = resolve1(self.cidsysteminfo.get("Ordering", b"unknown"))
+        if not isinstance(registry, bytes):
+            registry = b"unknown"
+        if not isinstance(ordering, bytes):
+            ordering = b"unknown"
+        cid_registry = registry.decode("latin1")
+        cid_ordering = ordering.decode("latin1")
         self.cidcoding = f"{cid_registry.strip()}-{cid_ordering.strip()}"
         self.cmap: CMapBase = self.get_cmap_from_spec(spec, strict)
 
@@ -1155,7 +1157,7 @@ class PDFCIDFont(PDFFont):
                 CMapParser(self.unicode_map, BytesIO(strm.get_data())).run()
             else:
                 cmap_name = literal_name(spec["ToUnicode"])
-                encoding = literal_name(spec["Encoding"])
+                encoding = literal_name(spec.get("Encoding"))
                 if (
                     "Identity" in cid_ordering
                     or "Identity" in cmap_name
@@ -1182,7 +1184,11 @@ class PDFCIDFont(PDFFont):
             # writing mode: vertical
             widths2 = get_widths2(list_value(spec.get("W2", [])))
             self.disps = {cid: (vx, vy) for (cid, (_, (vx, vy))) in widths2.items()}
-            (vy, w) = resolve1(spec.get("DW2", [880, -1000]))
+            dw2 = [resolve1(v) for v in list_value(spec.get("DW2", [880, -1000]))]
+            if len(dw2) != 2 or not all(isinstance(v, (int, float)) for v in dw2):
+                log.warning(f"Invalid DW2 {dw2!r}, using the default [880 -1000]")
+                dw2 = [880, -1000]
+            (vy, w) = dw2
             self.default_disp = (None, vy)
             widths: Dict[Union[str, int], float] = {
                 cid: w for (cid, (w, _)) in widths2.items()
@@ -1193,7 +1199,10 @@ class PDFCIDFont(PDFFont):
             self.disps = {}
             self.default_disp = 0
             widths = get_widths(list_value(spec.get("W", [])))
-            default_width = spec.get("DW", 1000)
+            default_width = resolve1(spec.get("DW", 1000))
+            if not isinstance(default_width, (int, float)):
+                log.warning(f"Invalid DW {default_width!r}, using the default 1000")
+                default_width = 1000
         PDFFont.__init__(self, descriptor, widths, default_width=default_width)
 
     def get_cmap_from_spec(self, spec: Mapping[str, Any], strict: bool) -> CMapBase:
@@ -1220,11 +1229,13 @@ class PDFCIDFont(PDFFont):
         cmap_name = "unknown"  # default value
 
         try:
-            spec_encoding = spec["Encoding"]
+            spec_encoding = resolve1(spec["Encoding"])
             if hasattr(spec_encoding, "name"):
                 cmap_name = literal_name(spec["Encoding"])
-            else:
+            elif isinstance(spec_encoding, (dict, PDFStream)):
                 cmap_name = literal_name(spec_encoding["CMapName"])
+            elif strict:
+                raise PDFFontError("Encoding is neither a name nor a CMap stream")
         except KeyError:
             if strict:
                 raise PDFFontError("Encoding is unspecified")
